@@ -248,6 +248,9 @@ fn inline_atom(cfg: &DocCfg) -> BoxedStrategy<Inl> {
         if let Some(p) = &cfg.inline_pool {
             icfg.pool = p.clone();
         }
+        if !cfg.on("wiki_inline") {
+            icfg.features.off.insert("wiki".into());
+        }
         if !icfg.pool.internal.is_empty() || !icfg.pool.external.is_empty() {
             opts.push((3, link(&icfg)));
         }
